@@ -239,6 +239,156 @@ def call_path(sites, locks):
     return path + closure + closure
 
 
+def block_end(text, i):
+    """position of the `}` matching the `{` at position i (len(text) when unmatched)"""
+    depth, j = 0, i
+    while j < len(text):
+        if text[j] == '{':
+            depth += 1
+        elif text[j] == '}':
+            depth -= 1
+            if depth == 0:
+                return j
+        j += 1
+    return len(text)
+
+
+def guard_end(text, p):
+    """where the guard acquired at position p of `text` is dropped, by the binding form of the statement it stands in:
+    `if let` / `while let` / `match` head -> the `}` closing the block that follows; `let` -> the `}` closing the innermost enclosing
+    block; anything else (a temporary) -> the end of the statement (`;`), or the end of the enclosing block for a tail expression"""
+    k = p
+    depth = 0
+    while k > 0:
+        k -= 1
+        c = text[k]
+        if c == ')':
+            depth += 1
+        elif c == '(':
+            if depth == 0:
+                break
+            depth -= 1
+        elif c in ';{}' and depth == 0:
+            break
+    head = text[k + 1:p]
+    if re.search(r'\b(if|while)\s+let\b|\bmatch\b', head):
+        i = text.find('{', p)
+        return block_end(text, i) if i >= 0 else len(text)
+    # innermost enclosing block
+    depth, j, enclosing = 0, p, len(text)
+    while j < len(text):
+        if text[j] == '{':
+            depth += 1
+        elif text[j] == '}':
+            if depth == 0:
+                enclosing = j
+                break
+            depth -= 1
+        j += 1
+    if re.search(r'\blet\b', head):
+        return enclosing
+    depth, j = 0, p
+    while j < enclosing:
+        if text[j] in '({':
+            depth += 1
+        elif text[j] in ')}':
+            depth -= 1
+        elif text[j] == ';' and depth <= 0:
+            return j
+        j += 1
+    return enclosing
+
+
+def region_ops(text, acc, locks, call_re, step_re=None):
+    """lock operations of one region of the evaluation path, in execution order, split at the nested call:
+    (operations before the call, operations after it).  Operation = ('A'|'R', is_write, lock) or ('S',).
+    Acquisitions: direct `.read()` / `.write()` / `.lock()` and calls of accessors (functions of model_evaluator.rs that hand out a guard);
+    the release of each guard is placed where the brace structure drops it (guard_end)."""
+    events = []
+    n = 0
+    for m in re.finditer(r'\.(read|write|lock|try_read|try_write|try_lock)\(\)', text):
+        recv = receiver(text, m.start())
+        if recv in locks:
+            w = m.group(1) in ('write', 'lock', 'try_write', 'try_lock')
+            n += 1
+            events.append((m.start(), 0, n, ('A', w, locks[recv])))
+            events.append((guard_end(text, m.start()), 1, -n, ('R', w, locks[recv])))
+    for m in re.finditer(r'(?:self|model_evaluator)\s*\.\s*([a-z_]+)\s*\(\s*\)', text):
+        for w, lid in acc.get(m.group(1), []):
+            n += 1
+            events.append((m.start(), 0, n, ('A', w, lid)))
+            events.append((guard_end(text, m.start()), 1, -n, ('R', w, lid)))
+    cm = re.search(call_re, text)
+    if not cm:
+        return None
+    events.append((cm.start(), 2, 0, ('C',)))
+    if step_re:
+        sm = re.search(step_re, text)
+        if not sm:
+            return None
+        events.append((sm.start(), 2, 0, ('S',)))
+    events.sort(key=lambda e: (e[0], e[1], e[2]))
+    ops = [e[3] for e in events]
+    k = ops.index(('C',))
+    return ops[:k], ops[k + 1:]
+
+
+def regions(sites, locks):
+    """the three code regions one nested decision evaluation runs through: evaluate_invocable (up to / after the call of
+    evaluate_decision), evaluate_decision (up to / after DecisionEvaluator::evaluate) and the decision evaluator closure of
+    builders/decision.rs (up to / after the evaluation of the required decisions; the call of the decision's own logic is the step)"""
+    empty = {'inv': ([], []), 'dec': ([], []), 'clo': ([], [])}
+    p = os.path.join(REPO, 'model-evaluator/src/model_evaluator.rs')
+    q = os.path.join(REPO, 'model-evaluator/src/builders/decision.rs')
+    if not (os.path.exists(p) and os.path.exists(q)):
+        return empty
+    me = no_tests(strip(open(p, errors='replace').read()))
+    dec = no_tests(strip(open(q, errors='replace').read()))
+    acc = {}
+    for rel, line, kind, evalp, fn in sites:
+        if rel == 'model-evaluator/src/model_evaluator.rs' and kind.startswith('SLock') and evalp and fn not in ('evaluate_invocable',):
+            acc.setdefault(fn, []).append((kind.split()[1] == 'true', int(kind.split()[2])))
+    k = dec.find('move |')
+    body = ''
+    if k >= 0:
+        i = dec.find('{', dec.find('|', k + 6))
+        body = dec[i:block_end(dec, i) + 1] if i >= 0 else ''
+    out = {'inv': region_ops(fn_body(me, 'evaluate_invocable'), acc, locks, r'self\s*\.\s*evaluate_decision\s*\('),
+           'dec': region_ops(fn_body(me, 'evaluate_decision'), acc, locks, r'decision_evaluator\s*\.\s*evaluate\s*\('),
+           'clo': region_ops(body, acc, locks, r'decision_evaluator\s*\.\s*evaluate\s*\(', r'\bevaluator\s*\(\s*&\s*scope\s*\)')}
+    return {k: (v if v else ([], [])) for k, v in out.items()}
+
+
+def type_tokens(text):
+    """identifiers of a type text that end a path: `std::collections::HashMap<alloc::string::String, x::InvocableType>` -> [HashMap, String, InvocableType]"""
+    return [t.split('::')[-1] for t in re.findall(r'[A-Za-z_][A-Za-z0-9_]*(?:\s*::\s*[A-Za-z_][A-Za-z0-9_]*)*', text.replace(' ', ''))]
+
+
+def lock_types(locks):
+    """receiver name -> type tokens of the value its RwLock / Mutex protects, read off the struct fields of the evaluation-path crates"""
+    out = {}
+    for crate in EVAL_CRATES:
+        for d, _, fs in sorted(os.walk(os.path.join(REPO, crate, 'src'))):
+            for f in sorted(fs):
+                if not f.endswith('.rs'):
+                    continue
+                text = no_tests(strip(open(os.path.join(d, f), errors='replace').read()))
+                for m in re.finditer(r'^\s*(?:pub(?:\([a-z]+\))?\s+)?([a-z_][A-Za-z0-9_]*)\s*:\s*(?:Arc\s*<\s*)?(?:RwLock|Mutex)\s*<(.*)>\s*,?\s*$', text, re.M):
+                    if m.group(1) in locks:
+                        inner = m.group(2)
+                        inner = inner[:-1] if inner.count('>') > inner.count('<') else inner
+                        out.setdefault(m.group(1), type_tokens(inner))
+    return out
+
+
+def coq_ops(ops):
+    def one(o):
+        if o[0] == 'S':
+            return 'LStep'
+        return '%s %s %d' % ('LAcq' if o[0] == 'A' else 'LRel', 'true' if o[1] else 'false', o[2])
+    return '[%s]' % '; '.join(one(o) for o in ops)
+
+
 def render(sites, locks):
     out = ['(* GENERATED by translators/syncsites2coq.py from %s — do not edit, not in git *)' % REPO,
            'From Coq Require Import List NArith Bool String.', 'From DV Require Import C20.Sites.', 'Import ListNotations.',
@@ -253,6 +403,14 @@ def render(sites, locks):
     out.append('')
     out.append('(* lock acquisitions of one nested decision evaluation, in call order (is_write, lock) *)')
     out.append('Definition call_path : list (bool * nat) := [%s].' % '; '.join('(%s, %d)' % ('true' if w else 'false', l) for w, l in call_path(sites, locks)))
+    out.append('')
+    out.append('(* lock operations of the three code regions of a nested decision evaluation, acquisitions AND releases, nesting as the brace')
+    out.append('   structure of the source gives it (a guard bound by `if let` lives to the end of that block, by `let` to the end of the enclosing')
+    out.append('   block, a temporary to the end of its statement); each region is split at the call of the next one; LStep = the decision logic *)')
+    rg = regions(sites, locks)
+    for key, name in (('inv', 'invocable'), ('dec', 'decision'), ('clo', 'closure')):
+        out.append('Definition %s_open : list lockop := %s.' % (name, coq_ops(rg[key][0])))
+        out.append('Definition %s_close : list lockop := %s.' % (name, coq_ops(rg[key][1])))
     return '\n'.join(out) + '\n'
 
 
